@@ -6,7 +6,8 @@ from .. import gram, molgen
 from ..runner import sut, expect
 
 ID = 'C13'
-RULE = ('cases: a clean fragment text rendered by own writers (SMILES of a random molecule model: random root, '
+RULE = ('[every text is read a second time after the caller emptied the first result] '
+        'cases: a clean fragment text rendered by own writers (SMILES of a random molecule model: random root, '
         'branches, ring digits 1-9/%nn with ring-bond symbols, bracket atoms, two-letter elements, charges; or a '
         'coarse fragment from the grammar AST: branches, ring markers, bond symbols) into which the generator '
         'inserts - and records - bonding descriptors (kinds $ > < !, labels incl. ones ending/starting with '
